@@ -362,6 +362,8 @@ class FnView:
                 if q:
                     self.callees.append((name, q, n))
                 if name.startswith('operator ') and not args:
+                    if name.rstrip().endswith('*'):
+                        return ('ctor', tkey(name[len('operator '):]), (obj,))     # pointer view of the object
                     return obj          # conversion function: value-preserving view of the object
                 return ('mcall', name, obj, args)
             if ck == 'UnresolvedLookupExpr':
@@ -479,6 +481,8 @@ class FnView:
                         if 'auto' not in vt.split() and vt != 'auto' and it not in ('<dependent type>', '') and it != vt \
                                 and not (t[0] == 'ctor' and t[1] == vt):
                             t = ('ctor', vt, (t,))
+                        elif vt.endswith('*') and it in ('<dependent type>', '') and not (t[0] == 'ctor' and t[1] == vt):
+                            t = ('ctor', vt, (t,))      # a pointer initialised from a dependent expression: a conversion
                     if d['id'] not in self._mutated():
                         self.locals[d['id']] = t
                     else:
@@ -1016,6 +1020,13 @@ def unroll(stmts, limit=64):
             var = ('v', ini[0][1])
             start = fold_consts(strip_casts(ini[0][2]))
             c = fold_consts(strip_casts(cond))
+            if c[0] == 'b' and c[1] in ('<', '<=') and c[2][0] == 'b' and c[2][1] == '+' and c[3][0] == 'lit':
+                # `v + k < bound`  ->  `v < bound - k`
+                l_, r_ = c[2][2], c[2][3]
+                if l_ == var and r_[0] == 'lit':
+                    c = ('b', c[1], var, ('lit', c[3][1] - r_[1]))
+                elif r_ == var and l_[0] == 'lit':
+                    c = ('b', c[1], var, ('lit', c[3][1] - l_[1]))
             ok = (start[0] == 'lit' and c[0] == 'b' and c[1] in ('<', '<=', '!=') and c[2] == var and c[3][0] == 'lit'
                   and inc in (('u', '++', var), ('u', 'post++', var), ('asg', '+=', var, ('lit', Fraction(1))))
                   and not _assigns(body, var))
@@ -1153,6 +1164,27 @@ class Inliner:
                             body = body[:-1]
                         out.extend(self.stmts(body, depth + 1))
                         continue
+            if st[0] == 'expr' and st[1][0] == 'mcall' and st[1][1] == 'operator()' and depth < 4:
+                # a function object applied as a statement: f(a[i], b[i]) with f an instance of a helper struct of the analysed
+                # headers; the resolved operator() (typed AST) is spliced in with its parameters bound
+                gs = {}
+                for nm, q, node in self.v.callees:
+                    if nm == 'operator()':
+                        g = self.tu.callee_fn(node)
+                        if g is not None and len(g['params']) == len(st[1][3]) and self._is_helper(g):
+                            gs[g['id']] = g
+                if len(gs) == 1:
+                    g = list(gs.values())[0]
+                    hv = FnView(self.tu, g)
+                    hb = [x for x in hv.body() if not (x[0] == 'ret' and x[1] is None)]
+                    if hb and all(x[0] == 'expr' for x in hb) and not unknowns(hb):
+                        self.used.add(g['id'])
+                        self.used_names.add('operator()')
+                        out.extend(self.stmts([subst_params(x, st[1][3]) for x in hb], depth + 1))
+                        continue
+            if st[0] == 'for':
+                out.append(('for', st[1], st[2], st[3], tuple(self.stmts(list(st[4]), depth))))
+                continue
             if st[0] == 'if':
                 out.append(('if', self.expr(st[1]), tuple(self.stmts(list(st[2]), depth)), tuple(self.stmts(list(st[3]), depth))))
             elif st[0] in ('ret', 'expr') and st[1] is not None:
